@@ -90,6 +90,7 @@ func init() {
 			return e.ts.Ite(a[0].(*Term), a[1].(*Term), a[2].(*Term))
 		},
 
+		zzPath + ".RetentionDaysRel": func(e *Exec, fn *ssa.Function, a []Value) Value { return FloatV{Opaque: true} },
 		zzPath + ".RetentionDays": func(e *Exec, fn *ssa.Function, a []Value) Value { return FloatV{Opaque: true} },
 		"(" + repoMod + "/config.Sweeper).RetentionDuration": func(e *Exec, fn *ssa.Function, a []Value) Value {
 			if t, ok := e.envState["retention"].(*Term); ok {
